@@ -16,9 +16,46 @@ EST_METHODS = _c02.EST_METHODS
 data = _c02.data
 
 # the opaque in-repo steps (assumed contracts) are shared with C02
-for _cls in (_c02.ConstraintKMeansAlgo, _c02.FitReglin, _c02.CloneFitted, _c02.AssertEqual, _c02.SingleRunOpaque, _c02.ToleranceOpaque,
+for _cls in (_c02.ConstraintKMeansAlgo, _c02.FitReglin, _c02.CloneFitted, _c02.AssertEqual, _c02.ToleranceOpaque,
              _c02.NodeFitOpaque, _c02.MappingTrainOpaque, _c02.FitBucketOpaque):
     contract(_cls.key, "C03", assumed=True)(type(_cls.__name__, (_cls,), {}))
+
+# one Lloyd run of KMeansL1L2 is verified here for one clause (its only random draw uses the caller's random state); the steps it calls keep
+# the contracts they have - and are proved - under C06 (assumed in this check)
+from contracts import C06 as _c06
+for _cls in (_c06.EStep, _c06.KInit, _c06.InitCentroids, _c06.CentersDense):
+    contract(_cls.key, "C03", assumed=True)(type(_cls.__name__, (_cls,), {"canaries": {}}))
+
+
+@contract(MM + "kmeans_l1.py::_kmeans_single_lloyd", "C03")
+class SingleRunSeed(_c06.SingleRun):
+    """one Lloyd run draws random numbers in one place only - the initial centres - and does so with the random state its caller passed
+    (a run that ignored it would make the fitted model depend on the state of the global generator)"""
+    canaries = {}
+
+    def result(self, E, a, old):
+        old["callsite"] = True
+        return _c02.SingleRunOpaque.result(self, E, a, old)
+
+    def ensures(self, E, a, res, old):
+        if old.get("callsite"):
+            return {}
+        return {"the_initial_centres_are_drawn_once_with_the_callers_random_state_and_init": z3.BoolVal(_seeded_inits(E, a, old) == [True])}
+
+
+def _seeded_inits(E, a, old):
+    """per call of _init_centroids in this run: is its random_state the generator built in this run from the caller's seed
+    (check_random_state(random_state)) - or that very object - and is its init the caller's init"""
+    made = [t for t in E.trace[old["tl"]:] if t["op"] == "RandomState"]
+    out = []
+    for t in E.trace[old["tl"]:]:
+        if t["op"] == "_init_centroids":
+            rs = t["random_state"]
+            out.append(t["init"] is a.init and (rs is a.random_state or any(m["result"] is rs and m["seed"] is a.random_state for m in made)))
+    return out
+
+
+SingleRunSeed.canaries = {"the_initial_centres_ignore_the_random_state": lambda E, a, res, old: z3.BoolVal(True not in _seeded_inits(E, a, old))}
 
 
 def refit(base, fitted, caches=(), name=None):
